@@ -550,7 +550,7 @@ func nullableRules(r *Run, p *Prog, m *idlModel, root string) {
 	// carries value != nil (or stores a fresh node)
 	type member struct{ S, F string }
 	nullable := map[member]string{}
-	for _, f := range p.FuncsOf(pkgIDL) {
+	for _, f := range m.funcs() {
 		for _, b := range f.Blocks {
 			for _, in := range b.Instrs {
 				al, ok := in.(*ssa.Alloc)
